@@ -108,7 +108,20 @@ func TestVerif_C02_e2eh2(t *testing.T) {
 	srv := httptest.NewUnstartedServer(origin)
 	srv.EnableHTTP2 = true
 	srv.StartTLS()
-	defer srv.Close()
+	defer func() {
+		// Server.Close waits for running handlers; a client that stopped reading (broken
+		// transport) would keep one blocked forever
+		done := make(chan struct{})
+		go func() {
+			srv.CloseClientConnections()
+			srv.Close()
+			close(done)
+		}()
+		select {
+		case <-done:
+		case <-time.After(5 * time.Second):
+		}
+	}()
 	dir := t.TempDir()
 	n := verifh.N(220, 5000)
 	var cl *Client
@@ -163,7 +176,7 @@ func TestVerif_C02_e2eh2(t *testing.T) {
 		detail := "got  " + c02Short(view) + "\nwant " + c02Short(want)
 		s.Observe(human+" #"+strconv.Itoa(c), ok, class, sp.bodyAllowed() && len(sp.body) > 0, human, detail)
 	}
-	if cl != nil {
+	if cl != nil && fails < 8 {
 		cl.GetTransport().CloseIdleConnections()
 	}
 	s.Finish()
@@ -235,7 +248,17 @@ func TestVerif_C02_e2eh3(t *testing.T) {
 		TLSConfig: qhttp3.ConfigureTLSConfig(&tls.Config{Certificates: []tls.Certificate{cert}}),
 	}
 	go srv.Serve(udp)
-	defer srv.Close()
+	defer func() {
+		done := make(chan struct{})
+		go func() {
+			srv.Close()
+			close(done)
+		}()
+		select {
+		case <-done:
+		case <-time.After(5 * time.Second):
+		}
+	}()
 	base := "https://" + udp.LocalAddr().String()
 	dir := t.TempDir()
 	n := verifh.N(160, 4000)
